@@ -153,7 +153,10 @@ def _cases(m, rr):
 def rule_pruning_evaluated(ctx, rid, rr):
     m = ctx.model
     prune = prune_role(m, rr)
-    lp = litprune_role(m, rr)
+    try:
+        lp = litprune_role(m, rr)
+    except AnalysisError:
+        lp = None  # the run preparation removes literals itself: decided by rule_execution_graph below, on the preparation as a whole
     on = [p for p in prune.params if "output" in p]
     rq = [p for p in prune.params if "required" in p]
     ip = [p for p in prune.params if "inplace" in p]
@@ -233,6 +236,9 @@ def rule_pruning_evaluated(ctx, rid, rr):
            f"evaluated on {n_cases} abstract plans: exactly the ancestors of the required nodes and the output survive (trivial literals contracted), "
            f"dependency paths and argument edges among the survivors are unchanged, the given plan is untouched" if ok else "; ".join(bad[:3]))
     ctx.floor(rid, "abstract plans the pruning was evaluated on", n_cases, 8)
+    rule_execution_graph(ctx, rid, rr)
+    if lp is None:
+        return
     # ---- literal pruning before execution / before the stale check
     pn = [p for p in lp.params if "predicate" in p]
     ipl = [p for p in lp.params if "inplace" in p]
@@ -284,3 +290,76 @@ def rule_pruning_evaluated(ctx, rid, rr):
     ctx.ob(rid, f"{lp.short}/evaluated", ok, loc(lp),
            f"evaluated on {n2} abstract plans: removes exactly the predecessor-free literals (those the predicate accepts), nothing else changes" if ok
            else "; ".join(bad[:3]))
+
+
+
+def rule_execution_graph(ctx, rid, rr):
+    """What the engine is given to execute: the run preparation is evaluated as a whole on abstract plans (literals with and without
+    predecessors, as arguments and as pure barriers, chains of them) and the graph of the plan it returns is compared with the plan it
+    received: every call is still there, nothing is invented, and between any two surviving nodes there is a dependency path exactly
+    when there was one.  (However the preparation removes the value-only literals - a helper, a flag of a helper, inline.)"""
+    m = ctx.model
+    prep = rr.prep_run
+    bad, n = [], 0
+    for label, build, _r, output in _cases(m, rr)[:9]:
+        p = build()
+        w = p.w
+        g0 = w.g
+        before_nodes = list(g0._nodes)
+        before_edges = list(g0._edges)
+        reach0 = _reach_table(g0, before_nodes)
+        w.interp.ext.setdefault("threading.Lock", lambda: Obj(None, {}, "lock"))
+        w.interp.ext.setdefault("threading.RLock", lambda: Obj(None, {}, "lock"))
+        observer = Obj(None, {k: Stub(k, lambda *a, **k_: None) for k in ("increment_running", "increment_completed", "increment_failed",
+                                                                         "increment_total")}, name="observer")
+        kw = {}
+        for prm in prep.params[1:]:
+            if "inplace" in prm:
+                kw[prm] = False
+            elif "output" in prm:
+                kw[prm] = p.n[output] if output else None
+            elif "retry" in prm:
+                kw[prm] = Stub("retry", lambda f: f)
+            elif "observer" in prm or "progress" in prm:
+                kw[prm] = observer
+            elif prm not in prep.defaults:
+                raise AnalysisError(f"{prep.qualname}: parameter `{prm}` has no abstract value in the evaluation of the run preparation")
+        try:
+            res = w.interp.call_func(prep, None, [w.plan], kw)
+        except AbsRaise as e:
+            raise AnalysisError(f"abstract evaluation of {prep.qualname} on '{label}' raised {e.value!r}")
+        vals = [res.attrs[x] for x in res.attrs["__tuple_fields__"]] if isinstance(res, Obj) and "__tuple_fields__" in res.attrs else \
+            list(res) if isinstance(res, (tuple, list)) else [res]
+        plans = [v for v in vals if isinstance(v, Obj) and "graph" in v.attrs]
+        if len(plans) != 1:
+            raise AnalysisError(f"{prep.qualname}: the result does not contain exactly one plan")
+        n += 1
+        g1 = plans[0].attrs["graph"]
+        kept = list(g1._nodes)
+        name = lambda x: w.names.get(id(x), "?")
+        why = None
+        if g0._nodes != before_nodes or g0._edges != before_edges:
+            why = "the given plan is modified although inplace=False"
+        lost_calls = [name(x) for x in before_nodes if x.cls is w.C["Call"] and not any(x is y for y in kept)]
+        extra = [name(x) for x in kept if not any(x is y for y in before_nodes)]
+        if why is None and lost_calls:
+            why = f"the calls {lost_calls} are not executed"
+        if why is None and extra:
+            why = f"nodes {extra} are invented"
+        if why is None:
+            for u in kept:
+                for v in kept:
+                    if u is not v and g1.reach(u, v) != reach0[(id(u), id(v))]:
+                        why = (f"the dependency path {name(u)} -> {name(v)} is " + ("lost" if reach0[(id(u), id(v))] else "invented") +
+                               " in the graph handed to the engine: " + (f"{name(v)} may start before {name(u)} has completed"
+                                                                          if reach0[(id(u), id(v))] else "an ordering that the plan does not have"))
+                        break
+                if why:
+                    break
+        if why:
+            bad.append(f"{label}: {why}")
+    ok = not bad
+    ctx.ob(rid, f"{prep.short}/execution-graph", ok, loc(prep),
+           f"evaluated on {n} abstract plans: the graph handed to the engine has every call of the plan and exactly its dependency paths" if ok
+           else "; ".join(bad[:3]))
+    ctx.floor(rid, "abstract plans the run preparation was evaluated on", n, 8)
